@@ -153,15 +153,49 @@ def simplify_after_folding(tree: ast.Module, module: str, known_locals: dict[str
                         continue
                 i += 1
 
+    def const_then_test(fn, qn: str) -> None:
+        # `x = <literal>` directly followed by `if <test that only needs x>`: the test is decided (x is a new local; this is what a memo read evaluated as a miss leaves behind)
+        known = set(known_locals.get(f'{module}::{qn}', []))
+        changed = True
+        while changed:
+            changed = False
+            for blk in _blocks(fn):
+                for i in range(len(blk) - 1):
+                    st, nx = blk[i], blk[i + 1]
+                    if not (isinstance(st, ast.Assign) and len(st.targets) == 1 and isinstance(st.targets[0], ast.Name) and isinstance(st.value, ast.Constant) and st.targets[0].id not in known
+                            and isinstance(nx, ast.If)):
+                        continue
+                    x = st.targets[0].id
+
+                    class _S(ast.NodeTransformer):
+                        def visit_Name(self, node):
+                            return ast.copy_location(ast.Constant(value=st.value.value), node) if node.id == x and isinstance(node.ctx, ast.Load) else node
+
+                    import copy as _copy
+
+                    t2 = _S().visit(_copy.deepcopy(nx.test))
+                    v = const_value(t2)
+                    if v is _UNKNOWN:
+                        continue
+                    keep = nx.body if v else nx.orelse
+                    blk[i + 1:i + 2] = keep or [ast.copy_location(ast.Pass(), nx)]
+                    log.append(f'{module}:{qn} test `{ast.unparse(nx.test)[:60]}` decided by `{ast.unparse(st)[:40]}` just before it')
+                    changed = True
+                    break
+                if changed:
+                    break
+
     def visit(body: list[ast.stmt], prefix: str) -> None:
         for st in body:
             if isinstance(st, FuncNode):
                 qn = f'{prefix}{st.name}'
                 split_tuples(st, qn)
+                const_then_test(st, qn)
                 one(st, qn)
                 for n in _own(st):
                     if isinstance(n, FuncNode):
                         split_tuples(n, f'{qn}.{n.name}')
+                        const_then_test(n, f'{qn}.{n.name}')
                         one(n, f'{qn}.{n.name}')
             elif isinstance(st, ast.ClassDef):
                 visit(st.body, f'{st.name}.')
